@@ -3,10 +3,10 @@
 package c08
 
 import (
-	"os"
 	"errors"
 	"fmt"
 	"math/big"
+	"os"
 	"runtime"
 	"sort"
 	"strings"
